@@ -1,10 +1,362 @@
-/- TEMPORARY STUB — to be replaced by the RE2-subset model. -/
 import Jqawk.Model.Bytes
+/-
+A model of a documented SUBSET of Go 1.23 `regexp` (RE2 syntax): `regexp.Compile(pat)` followed by
+`re.MatchString(s)`, over byte lists.  Core library only.
+
+Inside the subset the verdicts are exact (compile error / ok, match / no match); everything else is
+reported as `unmodelled`.  The parser mirrors `regexp/syntax/parse.go` (flags = `syntax.Perl`):
+a stack of open groups, each holding the finished alternatives and the items of the current
+concatenation.  Go reports the FIRST error left to right, and so do we; the first unmodelled
+construct stops the parse with `unmodelled`.
+
+Matching is denotational: `run r S` maps a set `S` of start positions (a `List Bool` indexed by
+character position, length `n+1`) to the set of positions where a match of `r` can end.  Star is a
+least fixed point reached in at most `n+1` rounds, so its fuel can never run out with a wrong
+answer.  No backtracking, no submatches.
+
+Unmodelled: invalid UTF-8 in the pattern (always a compile error in Go), patterns longer than 500
+characters (keeps RE2's size and nesting limits out of reach), flags `(?i)`…, named groups,
+`\p \P`, POSIX `[[:x:]]`, `\x`, octal, `\Q \A \z \C`.
+-/
 namespace Jqawk
 namespace Re
-inductive Regex | stub
-inductive CompileRes | ok (r : Regex) | invalid | unmodelled
-def compile (_pat : Bytes) : CompileRes := .unmodelled
-def isMatch (_r : Regex) (_s : Bytes) : Bool := false
+
+/-- Inclusive code-point ranges. -/
+abbrev Ranges := List (Nat × Nat)
+
+inductive Regex where
+  | empty                                              -- matches ""
+  | cls (neg : Bool) (rs : Ranges)                     -- one character (not) in `rs`
+  | bol | eol                                          -- `^` `$`: begin / end of text
+  | wordb (neg : Bool)                                 -- `\b` / `\B` (ASCII)
+  | cat (a b : Regex)
+  | alt (a b : Regex)
+  | rep (a : Regex) (min : Nat) (max : Option Nat)     -- `*`=(0,∞) `+`=(1,∞) `?`=(0,1) `{n,m}`
+  deriving Repr, DecidableEq, Inhabited
+
+inductive CompileRes where
+  | ok (r : Regex) | invalid | unmodelled
+  deriving Repr, DecidableEq
+
+/-! ## UTF-8 decoding, exactly `utf8.DecodeRune`: an invalid byte is U+FFFD of width 1 -/
+
+def maxRune : Nat := 0x10FFFF
+/-- Marks an invalid byte, to tell it from a genuine U+FFFD when checking the pattern. -/
+def badRune : Nat := 0x110000
+
+/-- Decode one character from `b0 :: rest`: (rune, width); an invalid byte is (`badRune`, 1). -/
+def decode1 (b0 : Nat) (rest : List Nat) : Nat × Nat :=
+  let err := (badRune, 1)
+  let cont (b : Nat) : Bool := 0x80 ≤ b && b ≤ 0xBF
+  if b0 < 0x80 then (b0, 1)
+  else if 0xC2 ≤ b0 && b0 ≤ 0xDF then
+    match rest with
+    | b1 :: _ => if cont b1 then ((b0 - 0xC0) * 64 + (b1 - 0x80), 2) else err
+    | _ => err
+  else if 0xE0 ≤ b0 && b0 ≤ 0xEF then
+    let lo := if b0 == 0xE0 then 0xA0 else 0x80      -- no overlong forms
+    let hi := if b0 == 0xED then 0x9F else 0xBF      -- no surrogates
+    match rest with
+    | b1 :: b2 :: _ =>
+      if lo ≤ b1 && b1 ≤ hi && cont b2 then
+        ((b0 - 0xE0) * 4096 + (b1 - 0x80) * 64 + (b2 - 0x80), 3) else err
+    | _ => err
+  else if 0xF0 ≤ b0 && b0 ≤ 0xF4 then
+    let lo := if b0 == 0xF0 then 0x90 else 0x80
+    let hi := if b0 == 0xF4 then 0x8F else 0xBF      -- at most U+10FFFF
+    match rest with
+    | b1 :: b2 :: b3 :: _ =>
+      if lo ≤ b1 && b1 ≤ hi && cont b2 && cont b3 then
+        ((b0 - 0xF0) * 262144 + (b1 - 0x80) * 4096 + (b2 - 0x80) * 64 + (b3 - 0x80), 4) else err
+    | _ => err
+  else err
+
+/-- `skip` = bytes still belonging to the previous character. -/
+def decodeAux : Nat → List Nat → List Nat
+  | _, [] => []
+  | skip + 1, _ :: rest => decodeAux skip rest
+  | 0, b :: rest => let (r, w) := decode1 b rest; r :: decodeAux (w - 1) rest
+
+def decodeRaw (s : Bytes) : List Nat := decodeAux 0 (s.map (·.toNat))
+
+/-- The characters of a byte string, as Go's matcher sees them. -/
+def decode (s : Bytes) : List Nat := (decodeRaw s).map (fun r => if r == badRune then 0xFFFD else r)
+
+/-! ## Parser -/
+
+inductive Err | invalid | unmodelled
+abbrev P := Except Err
+
+def lit (c : Char) : Regex := .cls false [(c.toNat, c.toNat)]
+
+/-- Complement of sorted disjoint ranges, from `lo` up. -/
+def compl (lo : Nat) : Ranges → Ranges
+  | [] => if lo ≤ maxRune then [(lo, maxRune)] else []
+  | (a, b) :: rest => (if lo < a then [(lo, a - 1)] else []) ++ compl (b + 1) rest
+
+/-- Perl classes: (negated, ranges).  `\s` is `[\t\n\f\r ]` (no `\v`), all ASCII only. -/
+def perl : Char → Option (Bool × Ranges)
+  | 'd' => some (false, [(48, 57)])
+  | 'D' => some (true, [(48, 57)])
+  | 'w' => some (false, [(48, 57), (65, 90), (95, 95), (97, 122)])
+  | 'W' => some (true, [(48, 57), (65, 90), (95, 95), (97, 122)])
+  | 's' => some (false, [(9, 10), (12, 13), (32, 32)])
+  | 'S' => some (true, [(9, 10), (12, 13), (32, 32)])
+  | _ => none
+
+/-- `parseEscape` for a single-character escape; input is the text after the backslash. -/
+def escChar : List Char → P (Char × List Char)
+  | [] => throw .invalid                                          -- trailing backslash
+  | 'a' :: t => pure ('\x07', t)
+  | 'f' :: t => pure ('\x0c', t)
+  | 'n' :: t => pure ('\n', t)
+  | 'r' :: t => pure ('\r', t)
+  | 't' :: t => pure ('\t', t)
+  | 'v' :: t => pure ('\x0b', t)
+  | '0' :: _ => throw .unmodelled                                 -- octal
+  | 'x' :: _ => throw .unmodelled                                 -- hex
+  | c :: t =>
+    if '1' ≤ c && c ≤ '7' then                                    -- octal needs a second digit,
+      match t with                                                -- back-references do not exist
+      | d :: _ => throw (if '0' ≤ d && d ≤ '7' then .unmodelled else .invalid)
+      | [] => throw .invalid
+    else if c.toNat < 0x80 && !c.isAlphanum then pure (c, t)      -- any ASCII punctuation, and `\_`
+    else throw .invalid
+
+/-- A decimal integer without superfluous leading zeros (`parseInt`). -/
+def parseInt (t : List Char) : Option (Nat × List Char) :=
+  let ds := t.takeWhile Char.isDigit
+  match ds with
+  | [] => none
+  | '0' :: _ :: _ => none
+  | _ => some (ds.foldl (fun n d => n * 10 + (d.toNat - 48)) 0, t.drop ds.length)
+
+/-- `{n}`, `{n,}`, `{n,m}`; input is the text after `{`.  `none`: the `{` is a literal. -/
+def parseRepeat (t : List Char) : Option (Nat × Option Nat × List Char) :=
+  match parseInt t with
+  | none => none
+  | some (mn, '}' :: r) => some (mn, some mn, r)
+  | some (mn, ',' :: '}' :: r) => some (mn, none, r)
+  | some (mn, ',' :: s) =>
+    match parseInt s with
+    | some (mx, '}' :: r) => some (mn, some mx, r)
+    | _ => none
+  | _ => none
+
+/-- `repeatIsValid`: nested counted repetitions may multiply up to `n` (= 1000) copies. -/
+def repeatOk : Regex → Nat → Bool
+  | .rep a mn mx, n =>
+    if mx == some 0 then true else
+    let m := mx.getD mn
+    if m > n then false else repeatOk a (if m > 0 then n / m else n)
+  | .cat a b, n | .alt a b, n => repeatOk a n && repeatOk b n
+  | _, _ => true
+
+/-- The members of a bracket class up to the closing `]`. -/
+def classItems : Nat → Bool → Ranges → List Char → P (Ranges × List Char)
+  | 0, _, _, _ => throw .unmodelled                               -- unreachable: fuel > length
+  | fuel + 1, first, acc, t =>
+    -- a single character `lo` or a range `lo-hi`; `[a-]` is `a` and `-`
+    let range (lo : Char) (t : List Char) : P (Ranges × List Char) :=
+      match t with
+      | '-' :: x :: t' =>
+        if x == ']' then classItems fuel false ((lo.toNat, lo.toNat) :: acc) t
+        else do
+          let (hi, t'') ← if x == '\\' then escChar t' else pure (x, t')
+          if hi < lo then throw .invalid                          -- invalid character class range
+          classItems fuel false ((lo.toNat, hi.toNat) :: acc) t''
+      | _ => classItems fuel false ((lo.toNat, lo.toNat) :: acc) t
+    match t with
+    | [] => throw .invalid                                        -- missing closing ]
+    | ']' :: t' => if first then range ']' t' else pure (acc, t')
+    | '[' :: ':' :: _ => throw .unmodelled                        -- POSIX class
+    | '\\' :: c :: t' =>
+      if c == 'p' || c == 'P' then throw .unmodelled else
+      match perl c with
+      | some (neg, rs) => classItems fuel false ((if neg then compl 0 rs else rs) ++ acc) t'
+      | none => do let (lo, t'') ← escChar (c :: t'); range lo t''
+    | '\\' :: [] => throw .invalid
+    | c :: t' => range c t'
+
+/-- A bracket class; input is the text after `[`.  With Go's default flags `[^a]` matches `\n`. -/
+def parseClass (t : List Char) : P (Regex × List Char) := do
+  let (neg, t) := match t with
+    | '^' :: t' => (true, t')
+    | _ => (false, t)
+  let (rs, t) ← classItems (t.length + 1) true [] t
+  pure (.cls neg rs, t)
+
+/-- An open group: finished alternatives and the current concatenation, both newest first. -/
+structure Frame where
+  alts : List Regex
+  cur : List Regex
+
+def mkCat : List Regex → Regex
+  | [] => .empty
+  | [x] => x
+  | x :: xs => .cat (mkCat xs) x
+
+def closeFrame (f : Frame) : Regex := f.alts.foldl (fun acc a => .alt a acc) (mkCat f.cur)
+
+/-- Main loop.  `stack`: enclosing groups; `f`: innermost group; `lastRep`: the previous token was a
+repetition operator (`a**` is an error, `a*?` is lazy). -/
+def parseLoop : Nat → List Frame → Frame → Bool → List Char → P Regex
+  | 0, _, _, _, _ => throw .unmodelled                            -- unreachable: fuel > length
+  | _ + 1, stack, f, _, [] =>
+    if stack.isEmpty then pure (closeFrame f) else throw .invalid -- missing closing )
+  | fuel + 1, stack, f, lastRep, c :: t =>
+    let atom (x : Regex) (t : List Char) : P Regex :=
+      parseLoop fuel stack { f with cur := x :: f.cur } false t
+    let open_ (t : List Char) : P Regex := parseLoop fuel (f :: stack) ⟨[], []⟩ false t
+    let repeat_ (mn : Nat) (mx : Option Nat) (t : List Char) : P Regex :=
+      let t := match t with
+        | '?' :: t' => t'                                         -- lazy: same set of matches
+        | _ => t
+      match lastRep, f.cur with
+      | false, x :: xs =>
+        let r := Regex.rep x mn mx
+        if (mn ≥ 2 || mx.any (· ≥ 2)) && !repeatOk r 1000 then throw .invalid
+        else parseLoop fuel stack { f with cur := r :: xs } true t
+      | _, _ => throw .invalid            -- nested repetition / missing argument (`*a` `(*` `|*`)
+    match c with
+    | '(' =>
+      match t with
+      | '?' :: ':' :: t' => open_ t'
+      | '?' :: [] => throw .invalid
+      | '?' :: c :: _ =>                                          -- flags, named groups
+        throw (if ['i', 'm', 's', 'U', '-', ')', 'P', '<'].contains c then .unmodelled else .invalid)
+      | _ => open_ t
+    | ')' =>
+      match stack with
+      | [] => throw .invalid                                      -- unexpected )
+      | g :: stack' => parseLoop fuel stack' { g with cur := closeFrame f :: g.cur } false t
+    | '|' => parseLoop fuel stack ⟨mkCat f.cur :: f.alts, []⟩ false t
+    | '^' => atom .bol t
+    | '$' => atom .eol t
+    | '.' => atom (.cls true [(10, 10)]) t
+    | '[' => do let (x, t') ← parseClass t; atom x t'
+    | '*' => repeat_ 0 none t
+    | '+' => repeat_ 1 none t
+    | '?' => repeat_ 0 (some 1) t
+    | '{' =>
+      match parseRepeat t with
+      | none => atom (lit '{') t                                  -- not a repetition: literal {
+      | some (mn, mx, t') =>
+        if mn > 1000 || mx.any (fun m => m > 1000 || m < mn) then throw .invalid
+        else repeat_ mn mx t'
+    | '\\' =>
+      match t with
+      | [] => throw .invalid                                      -- trailing backslash
+      | e :: t' =>
+        if ['A', 'z', 'C', 'Q', 'p', 'P'].contains e then throw .unmodelled
+        else if e == 'b' then atom (.wordb false) t'
+        else if e == 'B' then atom (.wordb true) t'
+        else match perl e with
+          | some (neg, rs) => atom (.cls neg rs) t'
+          | none => do let (c, t'') ← escChar t; atom (lit c) t''
+    | c => atom (lit c) t
+
+def compile (pat : Bytes) : CompileRes :=
+  let rs := decodeRaw pat
+  if rs.length > 500 || rs.contains badRune then .unmodelled else
+  match parseLoop (rs.length + 1) [] ⟨[], []⟩ false (rs.map Char.ofNat) with
+  | .ok r => .ok r
+  | .error .invalid => .invalid
+  | .error .unmodelled => .unmodelled
+
+/-! ## Matching -/
+
+/-- A set of character positions `0..n` of the subject. -/
+abbrev PosSet := List Bool
+
+def union (a b : PosSet) : PosSet := List.zipWith (· || ·) a b
+def isEmpty (a : PosSet) : Bool := !a.any id
+
+def inRanges (c : Nat) (rs : Ranges) : Bool := rs.any (fun (lo, hi) => lo ≤ c && c ≤ hi)
+
+def isWord (c : Nat) : Bool :=
+  (48 ≤ c && c ≤ 57) || (65 ≤ c && c ≤ 90) || c == 95 || (97 ≤ c && c ≤ 122)
+
+/-- Word-boundary flag of every position; `prev`: the character before is a word character. -/
+def wordBounds (prev : Bool) : List Nat → List Bool
+  | [] => [prev]
+  | c :: rest => (prev != isWord c) :: wordBounds (isWord c) rest
+
+def keepFirst : PosSet → PosSet
+  | [] => []
+  | b :: rest => b :: rest.map (fun _ => false)
+
+def keepLast : PosSet → PosSet
+  | [] => []
+  | [b] => [b]
+  | _ :: rest => false :: keepLast rest
+
+/-- `f` applied `k` times. -/
+def iter (f : PosSet → PosSet) : Nat → PosSet → PosSet
+  | 0, s => s
+  | k + 1, s => if isEmpty s then s else iter f k (f s)
+
+/-- `s ∪ f s ∪ … ∪ fᵏ s`. -/
+def upTo (f : PosSet → PosSet) : Nat → PosSet → PosSet
+  | 0, s => s
+  | k + 1, s => if isEmpty s then s else union s (upTo f k (f s))
+
+/-- Least `t ⊇ s` closed under `f`.  Every round but the last adds a position, so
+`fuel = number of positions + 1` always reaches the fixed point. -/
+def closure (f : PosSet → PosSet) : Nat → PosSet → PosSet
+  | 0, t => t
+  | fuel + 1, t => let t' := union t (f t); if t' == t then t else closure f fuel t'
+
+/-- End positions of matches of the regex that start at a position in the given set.
+`cs`: subject characters; `wb`: word-boundary flags. -/
+def run (cs : List Nat) (wb : List Bool) : Regex → PosSet → PosSet
+  | .empty, s => s
+  | .cls neg rs, s => false :: List.zipWith (fun b c => b && (inRanges c rs != neg)) s cs
+  | .bol, s => keepFirst s
+  | .eol, s => keepLast s
+  | .wordb neg, s => List.zipWith (fun b w => b && (w != neg)) s wb
+  | .cat a b, s => run cs wb b (run cs wb a s)
+  | .alt a b, s => union (run cs wb a s) (run cs wb b s)
+  | .rep a mn mx, s =>
+    let s' := iter (fun t => run cs wb a t) mn s
+    match mx with
+    | none => closure (fun t => run cs wb a t) (s.length + 1) s'
+    | some m => upTo (fun t => run cs wb a t) (m - mn) s'
+
+/-- `regexp.MatchString`: is there a match anywhere in `s` (unanchored unless `^`/`$` are used).
+`s` is arbitrary bytes; Go decodes it as UTF-8 where each invalid byte is one U+FFFD "character" of
+width 1. -/
+def «matches» (r : Regex) (s : Bytes) : Bool :=
+  let cs := decode s
+  (run cs (wordBounds false cs) r (true :: cs.map (fun _ => true))).any id
+
+/-! ## Sanity checks (kernel reduction) -/
+
+/-- ASCII string to bytes, for the examples below. -/
+def ascii (s : List Char) : Bytes := s.map (fun c => c.toNat.toUInt8)
+
+/-- compile + match: `none` = unmodelled, `some none` = compile error. -/
+def test (pat subj : List Char) : Option (Option Bool) :=
+  match compile (ascii pat) with
+  | .ok r => some (some (Re.matches r (ascii subj)))
+  | .invalid => some none
+  | .unmodelled => none
+
+example : compile (ascii ['a', '*']) = .ok (.rep (.cls false [(97, 97)]) 0 none) := by decide
+example : test ['a', '+', 'b'] ['x', 'a', 'a', 'b'] = some (some true) := by decide
+example : test ['^', 'a', '$'] ['a', 'a'] = some (some false) := by decide
+example : test ['^', '*'] [] = some (some true) := by decide            -- `^*` is valid in Go
+example : test ['a', '*', '*'] [] = some none := by decide
+example : test ['a', '{', '2', ',', '1', '}'] [] = some none := by decide
+example : test ['a', '{', ',', '2', '}'] ['a', '{', ',', '2', '}'] = some (some true) := by decide
+example : test ['[', ']', 'a', ']'] [']'] = some (some true) := by decide
+example : test ['(', '?', 'i', ')', 'a'] ['A'] = none := by decide
+example : test ['\\', 'b', 'a'] ['b', 'a'] = some (some false) := by decide
+example : Re.matches (.cls true [(10, 10)]) [0xff] = true := by decide     -- `.` eats an invalid byte
+example : decode [0xe4, 0xb8, 0x96, 0xc3, 0x28] = [0x4e16, 0xFFFD, 0x28] := by decide
+
+/-- alias without the keyword clash -/
+def isMatch (r : Regex) (s : Bytes) : Bool := Re.matches r s
+
 end Re
 end Jqawk
